@@ -74,7 +74,9 @@ def cases(tier, seed):
         k = int(rng.integers(1, 9)) if i % 7 else int(rng.integers(10, 15))      # now and then a file with two-digit type numbers
         chosen = [els[j] for j in rng.choice(len(els), size=k, replace=False)]
         tol = float(rng.choice([0.01, 0.1, 0.5]))
-        mode = ["plain", "perturbed", "one_nonatomic", "default_tol", "several_nonatomic"][i % 5]
+        mode = ["plain", "perturbed", "one_nonatomic", "default_tol", "several_nonatomic", "double_hit"][i % 6]
+        if mode == "double_hit":
+            tol = [0.5, 0.1][i // 6 % 2]
         out.append({"kind": "file", "tol": tol, "elements": chosen, "mode": mode, "s": int(rng.integers(1 << 30)),
                     "comments": bool(rng.integers(2)), "atom_format": ["full", "atomic"][int(rng.integers(2))]})
     return out
@@ -179,6 +181,16 @@ def run_case(case, ctx):
                 others = [abs(m - x) for x in s if x != m]
                 room = min(min(others) / 2 if others else 1.0, case["tol"]) * 0.9
                 masses[i] = m + float(rng.uniform(-room, room))
+        elif mode == "double_hit":
+            # a mass that lies within the tolerance of TWO tabulated elements (Cm / Bk are both 247; at 0.5 also Co / Ni, Ar / K,
+            # Te / I midpoints) next to a mass that belongs to no element: the second one still decides the fallback
+            twin = 247.0 if case["tol"] < 0.5 else float(rng.choice([247.0, 58.81, 39.52, 127.25]))
+            masses[0] = twin
+            masses.append(float(rng.choice([13.5, 0.3, 500.0])))
+            elements = elements + ["X"]
+            j = int(rng.integers(len(masses)))
+            masses[0], masses[j] = masses[j], masses[0]
+            st.count("file.mass_within_tolerance_of_two_elements_beside_a_non_atomic_mass")
         elif mode in ("one_nonatomic", "several_nonatomic"):
             gaps = [(lo, hi) for lo, hi in zip(s, s[1:]) if hi - lo > 2 * case["tol"] + 2e-3]
             # several: coarse-grained beads / united atoms next to real elements - two or more masses that belong to no element
